@@ -28,11 +28,11 @@ def run(tier, seed):
         v.violation("model/" + str(r.violation), "Par.tla: a task decomposition is not a disjoint cover of the serial work (%s)" % r.violation, {"tlc": r.out[-3000:]})
     # non-vacuity: the transposition without the cap on the number of batches (the code before fix 3ec6385) and a periodic-value
     # lookup by the fragment-local row index must both be refuted
-    for cfg, inv in (("MC_Par_uncapped", "Inv"), ("MC_Par_locallookup", "InvLocalLookup")):
+    for cfg, inv in (("MC_Par_uncapped", "Inv"), ("MC_Par_locallookup", "InvLocalLookup"), ("MC_Par_mincells", "Inv")):
         rv = vlib.run_tlc("MC_Par", cfg, workers=4, env={"PAR_MAXLOG": 10, "PAR_THREADS": "classes"}, timeout=1200, xmx="4g", tag=cfg)
         if rv.violation != inv:
             raise vlib.ToolError("self-test: variant %s not refuted (%s)" % (cfg, rv.violation))
-    log("[tlc] variants refuted: uncapped transposition batches, periodic lookup by fragment-local index")
+    log("[tlc] variants refuted: uncapped transposition batches, periodic lookup by fragment-local index, transposition batches of at least 1024 cells")
     ser = vlib.build_harness("rel")
     con = vlib.build_harness("rel", features=["concurrent"])
     extra = ["--thorough"] if tier == "thorough" else []
